@@ -116,6 +116,8 @@ def handle : List Sx → Sx
       | .valueError => Sx.err "ValueError"
       | .oom => Sx.oom
     | _, _ => Sx.bad
+  | [.atom "suspect-workers"] =>
+    Sx.ok (.list (suspectWorkers.map fun w => .list [.str w.module, .str w.name, Sx.ofStrs w.decorators, Sx.ofStrs w.filters]))
   | [.atom "convtable"] =>
     Sx.ok (.list (rows.map fun r => .list [.str r.name, Sx.ofInt r.base,
       encConv (intOut r), encConv (floatOut r)]))
